@@ -104,6 +104,22 @@ theorem session_source_independent {c : Bytes} {aL aS nL n : Nat} (ops : List Fl
   refine Flute.BencSessionSim.ssim_run ops x0 _ ?_ hg
   exact ⟨rfl, hsrc, ⟨st, rfl, hst⟩, rfl, rfl, rfl, rfl, rfl, rfl, rfl, rfl, rfl, Or.inl ⟨henc, henc⟩⟩
 
+/-- **transient source fault, then the next transfer** (class of seeded C20-5): a read that fails once with a hard error
+    (TimedOut, WouldBlock, …) in mid-transfer ends the cutting of THAT transfer (`read_end`; the blocks already read are
+    still sent) and leaves an ORDINARY stream behind: every later transfer starts with `BlockEncoder::new`, which rewinds
+    it wherever the faulty transfer stopped, so `stream_eq_buffer` / `each_transfer_rereads_n` / `session_source_independent`
+    apply to it - the later transfers are whole and carry the buffer source's packets.  (`Err(Interrupted)` is retried by
+    `read_block_stream` and does not exist in the model: a source with EINTRs IS the plain stream; classes C08-5 / C07-6.)
+    Both are compared with the real Sender on fault-injecting streams at every read index (engine families `fault-*`,
+    `fault-shape-*`, transfers 2 and 3 read after the fault). -/
+theorem transient_fault_leaves_plain_stream (P : Params) (s : Enc) (st : BlockEnc.Stream) (k : Nat)
+    (h : fillE (s.blockLength * P.e) st k (s.blockLength * P.e) [] = none) :
+    readBlockFaulty P s st k true = some { s with src := .stream st, readEnd := true } ∧
+    ∀ closable, Enc.new P (.stream st) closable = Enc.new P (.stream { st with pos := 0 }) closable := by
+  constructor
+  · unfold readBlockFaulty; simp [h]
+  · intro closable; simp [Enc.new, Stream.rewind]
+
 /-- the empty object: buffer and stream both send the lone empty packet, then `None` - when the codec yields no shard for
     the empty buffer (`Quiet`: No-Code, Reed-Solomon).  Forced or not, any schedule, any position. -/
 theorem stream_eq_buffer_empty (P : Params) (hnl : P.legacy = false) (hl : P.len = 0) (hw : 1 ≤ P.window)
